@@ -337,6 +337,8 @@ impl<'a, 'tcx> Cx<'a, 'tcx> {
             Rvalue::Discriminant(p) => {
                 out.push_str("{\"k\":\"discr\",\"p\":");
                 self.place(p, out);
+                out.push_str(",\"pty\":");
+                esc(&tystr(p.ty(&self.body.local_decls, self.tcx).ty), out);
                 out.push('}');
             },
             Rvalue::Aggregate(ak, ops) => {
